@@ -1,8 +1,8 @@
 package rules
 
 import (
-	"cvsslint/internal/spec"
 	"cvsslint/internal/facts"
+	"cvsslint/internal/spec"
 	"fmt"
 	"go/constant"
 	"go/token"
@@ -291,6 +291,22 @@ func (e *Env) getVersionInline(gv *types.Func, leaves []*ir.Leaf, shape []*ir.Te
 		r := lf.Ret[0]
 		okVal := false
 		detail := ""
+		if r.Op == ir.OCall && label == "" {
+			// the second part handed to a look-up helper together with the label table (a generic reverse look-up
+			// get(table, part, unknown)): the application is tabulated over the label domain
+			if ok, why := e.appliedLabelParser(r, part1, verT); ok {
+				for _, l := range spec.VersionLabels {
+					seenLabel[l] = true
+				}
+				nDefault++
+				okVal = true
+				detail = "label look-up " + clip(r.Pretty()) + " tabulated over the label domain"
+			} else {
+				detail = why
+			}
+			c.Check(okLen && okTag && okRest && okVal, "version-prefix", cons, e.P.Pos(lf.Pos), `accepts only "CVSS:<label>"; `+detail, fmt.Sprintf("prefix acceptance is not exactly: two ':'-parts, first part == \"CVSS\", value = the label look-up of the second part (len ok=%v, tag ok=%v, only label tests=%v, value ok=%v; %s)", okLen, okTag, okRest, okVal, detail))
+			continue
+		}
 		if r.Op == ir.OConst && r.C != nil {
 			v := facts.Value{Kind: facts.VConst, C: r.C, Type: verT}
 			if en := e.F.EnumOf(verT); en != nil {
@@ -322,6 +338,111 @@ func (e *Env) getVersionInline(gv *types.Func, leaves []*ir.Leaf, shape []*ir.Te
 		c.Check(seenLabel[l], "version-prefix", who+" label "+l, e.P.Pos(gv.Pos()), "has an accepting path", "no accepting path for the supported label "+l)
 	}
 	c.Check(nDefault == 1, "version-prefix", who+" default path", e.P.Pos(gv.Pos()), "exactly one path for every other label (unknown version)", fmt.Sprintf("%d paths return without a label having matched", nDefault))
+}
+
+// appliedLabelParser: call is a library function applied to the label part and otherwise to constants and literal
+// tables; evaluated over the label domain it yields, for each supported label, the constant that prints as that
+// label, and the unknown version for every other string.
+func (e *Env) appliedLabelParser(call, part *ir.Term, verT types.Type) (bool, string) {
+	fn, _ := call.Obj.(*types.Func)
+	if fn == nil || fn.Pkg() == nil || !load.IsLib(fn.Pkg().Path()) {
+		return false, "the value is not a call of a library function"
+	}
+	pos := -1
+	vals := make([]facts.Value, len(call.Args))
+	strs := map[string]bool{"": true, "3": true, "2.0": true, "4.0": true, "unknown": true}
+	for i, a := range call.Args {
+		if a.Key() == part.Key() {
+			if pos >= 0 {
+				return false, "the label part is handed over twice"
+			}
+			pos = i
+			continue
+		}
+		v, ok := e.termAsValue(a)
+		if !ok {
+			return false, "argument " + clip(a.Pretty()) + " is neither a constant nor a literal table"
+		}
+		vals[i] = v
+		if v.Kind == facts.VTable && v.T != nil {
+			for _, s := range v.T.Strings() {
+				strs[s] = true
+			}
+		}
+	}
+	if pos < 0 {
+		return false, "the label part is not an argument of the look-up"
+	}
+	labels := map[string]bool{}
+	for _, l := range spec.VersionLabels {
+		labels[l] = true
+		strs[l] = true
+	}
+	seen := map[string]bool{}
+	for _, s := range sortedKeys(strs) {
+		vals[pos] = facts.StringValue(s)
+		r := e.F.Eval(fn, vals...)
+		if r.Kind != facts.VConst || r.C == nil {
+			return false, fmt.Sprintf("%s on %q is not decided: %s", fname(fn), s, r)
+		}
+		if r.Type == nil {
+			r.Type = verT
+		}
+		if en := e.F.EnumOf(verT); en != nil && r.Obj == nil {
+			if i, ok := constant.Int64Val(constant.ToInt(r.C)); ok {
+				if k := en.ConstByVal(i); k != nil {
+					r.Obj = k
+				}
+			}
+		}
+		back, ok, _ := e.codeOf(verT, r)
+		if labels[s] {
+			if !ok || back != s || seen[s] {
+				return false, fmt.Sprintf("label %q yields %s, which prints as %q", s, r, back)
+			}
+			seen[s] = true
+			continue
+		}
+		if i, exact := constant.Int64Val(constant.ToInt(r.C)); !exact || i != 0 {
+			return false, fmt.Sprintf("the string %q, not a supported label, yields %s", s, r)
+		}
+	}
+	other := facts.Value{Kind: facts.VOther, Type: types.Typ[types.String]}
+	vals[pos] = other
+	if r := e.F.Eval(fn, vals...); r.Kind != facts.VConst || r.C == nil || constant.Sign(constant.ToInt(r.C)) != 0 {
+		return false, fmt.Sprintf("any other string yields %s", r)
+	}
+	return true, ""
+}
+
+// termValue: a constant or a literal table as an abstract value.
+func (e *Env) termAsValue(t *ir.Term) (facts.Value, bool) {
+	switch t.Op {
+	case ir.OConst:
+		if t.C != nil {
+			v := facts.Value{Kind: facts.VConst, C: t.C, Type: t.Typ}
+			if t.Typ != nil {
+				if en := e.F.EnumOf(t.Typ); en != nil {
+					if i, ok := constant.Int64Val(constant.ToInt(t.C)); ok {
+						if k := en.ConstByVal(i); k != nil {
+							v.Obj = k
+						}
+					}
+				}
+			}
+			return v, true
+		}
+	case ir.OGlobal:
+		if v, ok := t.Obj.(*types.Var); ok {
+			if tab := e.F.Tables[v]; tab != nil {
+				return facts.Value{Kind: facts.VTable, T: tab}, true
+			}
+		}
+	}
+	if len(t.Args) == 1 && (t.Op == ir.OAddr || t.Op == "load" || t.Op == ir.OSlice) {
+		return e.termAsValue(t.Args[0])
+	}
+	return facts.Value{}, false
 }
 
 func isZeroEnum(t *ir.Term) bool {
